@@ -238,6 +238,20 @@ impl Sched {
                 .iter()
                 .all(|t| !matches!(t.st, St::Blocked { bg: true, deadline: Some(_), .. }) || t.probed);
             let fruitless = self.useful == self.probe_mark && all_probed;
+            if fruitless && min_fg.is_none() && min_bg.is_some() && GRACE.load(Ordering::SeqCst) > 0 {
+                // give the kernel real time and probe once more
+                GRACE.fetch_sub(1, Ordering::SeqCst);
+                std::thread::sleep(std::time::Duration::from_millis(50));
+                for t in self.th.iter_mut() {
+                    t.probed = false;
+                }
+                let b = min_bg.unwrap();
+                if b > self.clock {
+                    self.clock = b;
+                }
+                self.wake_expired(true, true);
+                continue;
+            }
             let target = match (min_fg, min_bg) {
                 (None, None) => self.deadlock(),
                 (None, Some(_)) if fruitless => self.deadlock(),
@@ -432,6 +446,32 @@ pub fn notify(key: usize) {
             }
         }
     }
+}
+
+/// a socket write / connect / close by a harness actor: the kernel makes the peer's fd ready
+/// synchronously, a real idle worker would return from epoll_wait now. wake every idle
+/// (background) waiter so that it looks at its epoll fd again
+pub fn kick_idle() {
+    let mut g = lock();
+    let s = match g.as_mut() {
+        Some(s) => s,
+        None => return,
+    };
+    for t in s.th.iter_mut() {
+        if let St::Blocked { bg: true, .. } = t.st {
+            t.st = St::Runnable;
+            t.notified = true;
+            t.probed = false;
+        }
+    }
+}
+
+static GRACE: std::sync::atomic::AtomicUsize = std::sync::atomic::AtomicUsize::new(0);
+
+/// loopback TCP: delivery through softirq is usually but not provably synchronous. a deadlock
+/// verdict is re-confirmed after `n` real 50 ms pauses with another probe round each
+pub fn set_deadlock_grace(n: usize) {
+    GRACE.store(n, Ordering::SeqCst);
 }
 
 pub fn now_ns() -> u64 {
